@@ -159,6 +159,23 @@ func (x *xcase) run() (o obs) {
 	var rc io.ReadCloser
 	var err error
 	switch x.via {
+	case "readall":
+		// the convenience wrapper pdf.ReadAll: it opens, reads up to a limit and closes the chain itself
+		g := &getter{meta: pdf.MetaInfo{Version: pdf.V2_0}, objs: x.objs}
+		d := make(pdf.Dict, len(x.dict))
+		for k, v := range x.dict {
+			d[k] = v
+		}
+		limit := int64(16)
+		fmt.Sscanf(x.mode, "limit=%d", &limit)
+		var data []byte
+		data, err = pdf.ReadAll(g, nil, pdf.NewStream(d, x.body), limit)
+		o.produced = int64(len(data))
+		if err != nil {
+			o.stage, o.err = "read", err
+		}
+		o.alloc = totalAlloc() - a0
+		return o
 	case "filter":
 		var name pdf.Name
 		if len(names) > 0 {
